@@ -42,6 +42,9 @@ def run(ctx):
     nullret.check(ctx, prog, 'C03', ('String.cpp',))
     import litread
     litread.check(ctx, prog, 'C03', ('String.cpp',))
+    import retself
+    n = retself.check(ctx, prog, 'R-RETSELF', ('asl::String',))
+    ctx.floor('R-RETSELF members', n, 5)
     return __doc__.split('\n\n', 1)[1]
 
 
